@@ -588,4 +588,25 @@ theorem iter_add' (m n : Nat) (st : St) : iter (m + n) st = (iter m st).bind (it
     | none => rfl
     | some st1 => simpa using ih st1
 
+/-! ### name resolution -/
+
+theorem mem_specParams (inv : Inv) (x : Name) :
+    x ∈ (specExpansion inv).params.map (·.1) ↔ x ∈ inv.args ++ inv.caps.map (·.1) := by
+  show x ∈ (inv.args.map (·, Kind.arg) ++ specTail inv.caps).map (·.1) ↔ _
+  rw [List.map_append, specTail_keys, List.map_map]
+  have : ((fun x : Name × Kind => x.1) ∘ fun x : Name => (x, Kind.arg)) = id := rfl
+  rw [this, List.map_id]
+  have hk := (capKeys_perm inv.caps).mem_iff (a := x)
+  simp only [List.mem_append] at hk ⊢
+  rw [hk]
+
+theorem resolveG_spec (inv : Inv) (hidden : Name) (locals : List Name) (x : Name) (hx : x ≠ hidden) :
+    resolveG hidden (specExpansion inv) locals x = resolveE inv locals x := by
+  unfold resolveG resolveE
+  by_cases h1 : x ∈ locals
+  · simp [h1]
+  · by_cases h2 : x ∈ inv.args ++ inv.caps.map (·.1)
+    · rw [if_neg h1, if_neg h1, if_pos ((mem_specParams inv x).mpr h2), if_pos h2]
+    · rw [if_neg h1, if_neg h1, if_neg (fun h => h2 ((mem_specParams inv x).mp h)), if_neg h2, if_neg hx]
+
 end Rlib.Lambda
